@@ -266,6 +266,27 @@ def effects_analyze(I, h, nmax=3):
     return "ok"
 
 
+def effects_analyze_all(I, h):
+    """analyze on every ordered selection of distinct effectful ops (all 6 may be present): exact union"""
+    E = I.E
+    sp = spec()
+    left = list(EFFECT_OF.items())
+    ops, want = [], 0
+    while left:
+        c = E.choose(len(left) + 1, f"pick{len(ops)}")
+        if c == 0: break
+        (g, nme), bit = left.pop(c - 1)
+        so = next(o for o in sp["ops"] if (o["group"], o["name"]) == (g, nme))
+        ops.append(mk_op(h, so)); want |= bit
+    # an effect-free op at a symbolic position does not matter; one Push at the front for good measure
+    v = h.vec(ops)
+    r = h.call("asm", "analyze", [SliceRef(v, 0, len(ops))])
+    bits = r
+    while isinstance(bits, Agg): bits = bits.cells[0].v
+    check(E, b_not(int_binop("Eq", bits, u8(want))), f"analyze returns the wrong effect set (expected {want:#04x})", dict(order=[x.cells[0].v.variant for x in ops]))
+    return "ok"
+
+
 def _t(props, fn, **kw):
     return dict(props=props, crates=["types", "asm"], fn=fn, **kw)
 
@@ -287,6 +308,8 @@ HARNESSES = {
                         witnesses=["wellformed"],
                         bound=dict(quick="well-formed streams of <=3 ops: Push(any immediate, so immediates containing opcode bytes are inside) | KRNG, PKRNG, PKREX, THIS, POP, COME; all 64 effect sets", thorough="<=4 ops"),
                         replay=dict(kind="asm_bytes", fn="effects_bytes")),
+    "effects_analyze_all": _t(["C15"], effects_analyze_all, witnesses=["ok"],
+                              bound_text="every ordered selection of distinct effectful ops (0..6 of the 6)", replay=dict(kind="asm_bytes", fn="analyze_all")),
     "effects_analyze": _t(["C15"], effects_analyze, params=dict(quick=dict(nmax=3), thorough=dict(nmax=4)), witnesses=["ok"],
                           bound=dict(quick="<=3 ops drawn from the 6 effectful ops, Push(any), Add", thorough="<=4 ops"),
                           replay=dict(kind="asm_bytes", fn="analyze")),
